@@ -2764,6 +2764,12 @@ class HTTPChannel(basic.LineReceiver, policies.TimeoutMixin):
         for name, values in headers.getAllRawHeaders():
             for value in values:
                 headerSequence.extend((name, b": ", value, b"\r\n"))
+                if name == b"Connection" and b"close" in [
+                    token.strip(b" \t").lower() for token in value.split(b",")
+                ]:
+                    # The response tells the peer that the connection will be
+                    # closed (RFC 9112 section 9.6): do close it afterwards.
+                    self.persistent = False
         headerSequence.append(b"\r\n")
         self.transport.writeSequence(headerSequence)
 
